@@ -161,6 +161,21 @@ reg('C20', 'fault_enumeration',
     'removed; set-up is stopped after code generation, so "never reaches '
     'execution" is decided by "raised before compile".')
 
+reg('C12', 'exploration',
+    'name-resolution monitor on the live scheme objects (every d_*/s_* '
+    'argument, pair-symbol property and stepper argument against the live '
+    'particle arrays), the real code generator, and for one vector per '
+    'scheme a compile + 3 steps + finiteness check',
+    'Held on the option grid explored: 16 scheme classes x dims 1-3 x with / '
+    'without a solid array x clean, defaults + every single departure + the '
+    'full product where it is small (grid size reported; exhaustive parts '
+    'flagged), about 2000 vectors resolved, 180 generated, 12 compiled and '
+    'run per quick run; one listed known finding (GTVF no-slip wall).',
+    'Combinations a scheme itself refuses (ValueError / NotImplementedError '
+    '/ AssertionError) are counted as refusals; compile-and-run is asserted '
+    'only for the schemes whose generic initial data stays finite on the '
+    'unchanged tree (PCISPH, GasD listed as not asserted; ISPH needs scipy).')
+
 _pending = {
 }
 for _i in range(1, 21):
